@@ -89,7 +89,8 @@ def show_case(rng, scope):
     vp, old, new, flags, d2 = projgen.gen_states(rng)
     tree = refimpl.tokenize(vp)
     cfgv = refimpl.render(tree, old)
-    tags = gen_tagset(rng, vp, tree, old)
+    # a git tag name cannot contain blanks (and bumpver splits the listing on blanks): what the fake git serves IS the split list
+    tags = [x for t in gen_tagset(rng, vp, tree, old) for x in t.split()]
     today = [2026, 9, 29]
     case = {"vp": vp, "config_version": cfgv, "tags": tags, "scope": scope}
     rx = re.compile(refimpl.ref_regex(tree))
@@ -148,6 +149,45 @@ def update_case(rng, mode):
     if code == 0 and announced in tags_global:
         return case, "update (%s) exited 0 and set the version to %r, which is an existing tag" % (mode, announced), region
     return case, None, region
+
+
+def scope_case(rng):
+    """the start version of a real `update` under every combination of configured tag_scope and --tag-scope, with a branch tag list
+    that differs from the global one: observed as BUMPVER_OLD_VERSION in a pre-commit hook"""
+    vp, old, new, flags, d2 = projgen.gen_states(rng)
+    tree = refimpl.tokenize(vp)
+    cfgv = refimpl.render(tree, old)
+    tags = [x for t in gen_tagset(rng, vp, tree, old) for x in t.split()]
+    k = rng.randint(0, len(tags))
+    tags_branch = sorted(rng.sample(tags, k))
+    cfg_scope = rng.choice(["default", "global", "branch"])
+    cli_scope = rng.choice([None, "default", "global", "branch"])
+    eff = cli_scope or cfg_scope
+    rx = re.compile(refimpl.ref_regex(tree))
+    valid = lambda ts: [t for t in ts if rx.fullmatch(t) and _date_ok(tree, t)]
+    want = expected_start(eff, cfgv, valid(tags_branch if eff == "branch" else tags))
+    args = ["update", "--no-fetch", "--commit", "--no-tag-commit", "--no-push", "--pre-commit-hook", "pre_hook.sh"] + projgen.cli_flags({"date": [d2.year, d2.month, d2.day], "flags": flags})
+    if cli_scope:
+        args += ["--tag-scope", cli_scope]
+    case = {"kind": "scope", "vp": vp, "config_version": cfgv, "tags": tags, "branch_tags": tags_branch, "cfg_scope": cfg_scope, "cli_scope": cli_scope, "args": args, "want": want}
+    with sandbox.Project("c09s") as p:
+        p.write_text("bumpver.toml", '[bumpver]\ncurrent_version = %s\nversion_pattern = %s\ntag_scope = "%s"\ncommit = true\ntag = false\npush = false\n[bumpver.file_patterns]\n"bumpver.toml" = [\'current_version = "{version}"\']\n' % (
+            json.dumps(cfgv), json.dumps(vp), cfg_scope))
+        p.add_fake_vcs("git")
+        p.add_hook("pre_hook.sh")
+        p.fake_set("tags", "".join(t + "\n" for t in tags))
+        p.fake_set("tags_branch", "".join(t + "\n" for t in tags_branch))
+        code, out, exc = sandbox.run_cli(args, p.dir, p.env(), today=dt.date(2026, 9, 29))
+        hooks = [a for a in p.fake_log() if a and a[0] == "HOOK"]
+    case.update(exit=code, exc=exc)
+    if code != 0 or not hooks:
+        return case, None, False          # no bump possible from that start version (or rejected): nothing observable
+    got = hooks[0][2]
+    case["got"] = got
+    if got != want and pep_key(got) != pep_key(want):
+        return case, ("`bumpver update` (config tag_scope %s, --tag-scope %s) started from %r; the greatest matching tag in scope / config value is %r "
+                      "(config %r, tags %r, reachable from HEAD %r)" % (cfg_scope, cli_scope, got, want, cfgv, valid(tags), valid(tags_branch))), True
+    return case, None, True
 
 
 def _date_ok(tree, text):
@@ -218,6 +258,10 @@ def run(chk, driver, tier):
         chk.count("scope:" + case["scope"])
         chk.count("valid_tags:%d" % min(len(case.get("valid", [])), 5))
         chk.oracle_case(case, verdict)
+    for i in range(n // 4):
+        case, verdict, observed = scope_case(rng)
+        chk.count("scope_case:%s/%s:%s" % (case["cfg_scope"], case["cli_scope"], "observed" if observed else "no-bump"))
+        chk.oracle_case(case, verdict)
     known = {f["id"]: f for f in load_known_findings("C09") if f.get("status") == "open"}
     seen = None
     for i in range(n // 8):
@@ -245,6 +289,8 @@ def search(chk, driver, tier):
     rng = chk.rng
     for i in range(1500):
         case, verdict = show_case(rng, ["default", "global", "branch"][i % 3])
+        chk.oracle_case(case, verdict)
+        case, verdict, observed = scope_case(rng)
         chk.oracle_case(case, verdict)
         if chk.violations:
             return
